@@ -82,11 +82,9 @@ Definition bwf_forest (ks : list bnode) : bool := no_adj_text ks && forallb bwf 
 
 (* ---------- induction over trees ---------- *)
 Section bnode_ind2.
-  Variable P : bnode -> Prop.
-  Hypothesis HE : forall n ef attrs kids, Forall P kids -> P (BElem n ef attrs kids).
-  Hypothesis HT : forall t, P (BText t).
-  Hypothesis HC : forall t, P (BCData t).
-  Hypothesis HM : forall c, P (BComment c).
+  Context (P : bnode -> Prop)
+          (HE : forall n ef attrs kids, Forall P kids -> P (BElem n ef attrs kids))
+          (HT : forall t, P (BText t)) (HC : forall t, P (BCData t)) (HM : forall c, P (BComment c)).
   Fixpoint bnode_ind2 (nd : bnode) : P nd :=
     match nd with
     | BElem n ef attrs kids =>
